@@ -28,7 +28,7 @@ for p in props:
         "engine":"cbv",
         "level_claimed":{"category":"proof","text":"Contracts (//@ requires/ensures/invariant/modifies in /repo/contracts_*_verif.go) on the real functions, verification conditions generated from go/ssa of the current working tree, every obligation discharged by z3/cvc5 for all inputs and all loop iterations. "+text,"design_ref":"DESIGN.md section 9/"+pid},
         "level_note":note,
-        "technique":"contract-based deductive verification: weakest-precondition VCs over go/ssa, SMT (z3 5.1/4.8, cvc5)"
+        "technique":"contract-based deductive verification: weakest-precondition VCs over go/ssa, SMT (z3 5.1/4.8, cvc5)"+(("; "+m["technique_extra"]) if m.get("technique_extra") else "")
     })
 manifest={
  "version":1,
@@ -36,7 +36,7 @@ manifest={
  "hooks":{"guard":"verif","enable":"go build tag: -tags=verif (contract files /repo/contracts_*_verif.go and lemmas_verif.go start with //go:build verif)","baseline_off_cmd":"cd /repo && GOFLAGS=-mod=mod GOPROXY=off GOSUMDB=off go test -vet=off -count=1 ./...","source_commits":hooks,"add_only":True},
  "engines":[{"name":"cbv","path":"/verif/engine","serves_properties":[c["property_id"] for c in checks],"kind_free_text":"contract-based deductive verifier for Go built for this task: VC generation over go/ssa (x/tools v0.29.0, vendored) of /repo's working tree, contracts as //@ comments in build-tag-guarded files, obligations discharged by z3-new/z3/cvc5 with Houdini-inferred loop candidates, hypothesis slicing, counterexample replay via go test -overlay"}],
  "checks":checks,
- "notes":"Known findings: /verif/KNOWN_FINDINGS.txt. Design: /verif/DESIGN.md. Must-fail self-test corpus: /verif/selftest, seeded changes: /verif/seeded.",
+ "notes":"Known findings: /verif/KNOWN_FINDINGS.txt. Design: /verif/DESIGN.md. Seeded property-breaking changes and which obligation reports each: /verif/seeded, DESIGN.md 13.7; the thorough tier re-runs them and the reverts of the fix: commits on scratch copies (evidence key mutants).",
  "not_applicable":[{"property_id":p['id'],"reason":na_reason.get(p['id'],"not yet reached by the engine (DESIGN.md section 11 staging); no check claimed")} for p in props if p['id'] not in pm]
 }
 json.dump(manifest,open('/verif/MANIFEST.json','w'),indent=1)
